@@ -97,7 +97,11 @@ def compile_case(case):
                 if sid in case.nums:
                     slots.append((inst, attr, sid, -1 if v < 0 else 1))
     found = {s[2] for s in slots}
-    missing = set(case.nums) - found
+    init_sids = set()
+    _init = {}
+    _collect_nums(list((case.init_colors or {}).values()), _init)      # symbolic device states are not in the script text
+    init_sids = set(_init)
+    missing = set(case.nums) - found - init_sids
     if missing:
         raise CompileError('sentinels not found in compiled program: %s' % sorted(missing))
     return prog, slots
